@@ -140,6 +140,17 @@ def r2_terminal_flag(ctx, cb, rule='C03-R2'):
               bad='%s: there is a path from an in-boundary successor to the terminal test (bb%d) on '
                   'which the terminal flag `%s` is never cleared: a non-terminal state is reported as '
                   'the end of an eventually counterexample' % (cb.strat, sw.bb, b.debug_name(fl)))
+    # ... and only then: the flag is cleared for a successor that exists and lies inside the boundary. Clearing it
+    # for an ignored action (next_state == None) or an out-of-boundary successor makes a state whose maximal
+    # in-boundary path ends here look extendable, and its counterexample is silently dropped.
+    wbt = list(cb.wb_true)
+    early = sorted(bb for bb in s0 if not (wbt and b.edges_dominate(wbt, bb)))
+    ctx.check(not early, rule, 'flag-cleared-only-for-in-boundary-successors', b,
+              good='the terminal flag is cleared only after within_boundary(successor) returned true',
+              bad='%s: the terminal flag `%s` is cleared at %s without a successor that passed within_boundary (an '
+                  'ignored action, an out-of-boundary successor): a state that ends a maximal in-boundary path is not '
+                  'treated as terminal and a genuine eventually-counterexample is lost' %
+                  (cb.strat, b.debug_name(fl), early))
     # the flag is (re)initialised to true only before the successor loop of the same job
     s1 = set(bb for (bb, si, v) in stores if v == 1)
     ok2 = all(b.dominates(bb, cb.actions.bb) for bb in s1) and bool(s1)
